@@ -111,6 +111,21 @@ Proof. split; reflexivity. Qed.
 Lemma frame_trans a b c : frame a b -> frame b c -> frame a c.
 Proof. intros [A B] [C D]; split; congruence. Qed.
 
+Lemma sym_eqb_py_refl s : sym_eqb_py s s = true.
+Proof.
+  destruct s as [n t|i t|t v]; cbn [sym_eqb_py].
+  - apply (proj2 (sym_eqb_spec (SPrim n t) (SPrim n t)) eq_refl).
+  - apply Nat.eqb_refl.
+  - apply (proj2 (sym_eqb_spec (SConst t v) (SConst t v)) eq_refl).
+Qed.
+
+Lemma prog_eqb_py_refl a : prog_eqb_py a a = true.
+Proof.
+  induction a as [s|f l IH] using prog_ind'; cbn; [apply sym_eqb_py_refl|].
+  rewrite sym_eqb_py_refl. cbn. induction l as [|x r IHr]; cbn; auto.
+  inversion IH; subst. rewrite H1. cbn. apply IHr. assumption.
+Qed.
+
 Section Proofs.
   Variable vapp : value -> value -> outcome value.
   Variable prim_value : N -> value.
@@ -544,7 +559,7 @@ Section Proofs.
           apply filter_In in Hin. destruct Hin as [Hin Ht].
           rewrite Forall_forall in F. specialize (F td Hin Ht).
           unfold seen_mem in F. rewrite S, Esol in F. cbn in F.
-          rewrite prog_eqb_refl in F. discriminate.
+          rewrite prog_eqb_py_refl in F. discriminate.
         * constructor.
           -- cbn. intros Et. rewrite Et in S. tauto.
           -- eapply Forall_impl; [|exact F]. cbn. intros td Htd Ht. auto.
